@@ -83,8 +83,8 @@ def strategy(mode, knob=None):
 
 def valid(case):
     try:
-        base = dict({k: case[k] for k in ("ir", "stale_ir", "truth", "states", "method")}, nested=case.get("nested", False), cli=case.get("cli", False))
-        if not c09.valid(base) or set(case) - {"nested", "cli"} != {"ir", "stale_ir", "truth", "states", "method", "steps", "path_style"}:
+        base = dict({k: case[k] for k in ("ir", "stale_ir", "truth", "states", "method")}, nested=case.get("nested", False), cli=case.get("cli", False))  # (no mirror file here)
+        if not c09.valid(base) or set(case) - {"nested", "cli", "mirror"} != {"ir", "stale_ir", "truth", "states", "method", "steps", "path_style"}:
             return False
         if case["path_style"] not in ("abs", "relative", "symlink"):
             return False
@@ -108,7 +108,7 @@ def valid(case):
 
 
 def run_case(case):
-    base = dict({k: case[k] for k in ("ir", "stale_ir", "truth", "states", "method")}, nested=case.get("nested", False), cli=case.get("cli", False))
+    base = dict({k: case[k] for k in ("ir", "stale_ir", "truth", "states", "method")}, nested=case.get("nested", False), cli=case.get("cli", False))  # (no mirror file here)
     tags = c09.case_tags(base) | {"paths=" + case["path_style"]}
     steps = case["steps"]
     ops = [s_["op"] for s_ in steps]
